@@ -14,7 +14,7 @@ SPEC = {
     'search_args': ['-api', 4000, '-enc', 2000, '-split', 60],
     'assumptions': [
         'PARTIAL: the theorems decide the detach LOGIC (copy or view per flow, as a function of ZeroCopy, InternString, transport and the attach state the driver reports) and the region discipline of later operations; that a Go slice really lives in the region the model says is a runtime fact of unsafe views (stringView/bytesView, reader buffers, free lists) and is tied by observation, not proved',
-        'provenance model is hand written; tied on every run by (a) calling the real drivers\' DecodeBytes/DecodeStringAsBytes through the verif hook for every (format, transport, ZeroCopy, operation, length class) and comparing the reported attach state and the address range of the returned slice with C13.Model.produce, (b) pointer-range tests of every decoded string/[]byte/Raw/RawExt leaf against the input buffer compared with C13.Model.keep, (c) the behavioural oracle (decode on, Reset onto other streams, Reset, overwrite the whole input; re-compare snapshot and every leaf), (d) the split stream: maps decoded by the reflection kMap from a buffered reader delivering the stream in every one-split / two-split schedule x ReaderBufferSize 1,2,7,16,64, compared with the []byte decode (the model abstracts WHEN a view is detached; a view that is detached too late, after the next read, is only visible here)',
+        'provenance model is hand written; tied on every run by (a) calling the real drivers\' DecodeBytes/DecodeStringAsBytes through the verif hook for every (format, transport, ZeroCopy, operation, length class) and comparing the reported attach state and the address range of the returned slice with C13.Model.produce, (b) pointer-range tests of every decoded string/[]byte/Raw/RawExt leaf against the input buffer compared with C13.Model.keep, (c) the behavioural oracle (decode on, Reset onto other streams, Reset, overwrite the whole input; re-compare snapshot and every leaf), (d) the split stream: maps decoded by the reflection kMap from a buffered reader delivering the stream in every one-split / two-split schedule x ReaderBufferSize 1,2,7,16,64, compared with the []byte decode plus the reset stream and the in-value sharing oracle: a value decoded into a zero destination is independent of MapValueReset/InterfaceReset/SliceElementReset and no two positions of it share a map, slice memory or pointee (the model abstracts WHEN a view is detached; a view that is detached too late, after the next read, is only visible here)',
         'history model: later operations write only the input (caller), the reader buffer and decoder scratch, and allocate new blocks; never an already allocated Fresh/Table block (this is what the behavioural oracle tests on the implementation)',
         'flows covered: string destinations (kString, *string, fast-path elements/keys), kMap string keys, interface{} strings/bytes/symbols, []byte destinations (decodeBytesInto), RawExt.Data, Raw, binc symbol table entries, interned strings, interface{} []byte keys, values decoded by the side Decoder of a SelfExt extension. Transient uses (struct field name lookup, BytesExt.ReadExt, UnmarshalBinary/Text/JSON arguments, MissingFielder names) are views by contract and are not kept values',
         'default (unsafe, monomorphised) build; under codec.safe every string/[]byte conversion copies',
